@@ -11,7 +11,7 @@ BYTE_SUBS = [0x00, 0x7f, 0x80, 0xff, 0xc1, 0xc2, 0xc3, 0xc4, 0x30, 0x31,
 
 GENERIC_KINDS = ['cut', 'flip', 'flip', 'insert', 'delete', 'dup-range',
                  'splice', 'garbage', 'byte-sub', 'byte-sub', 'first64',
-                 'first64', 'append']
+                 'first64', 'append', 'byte-small']
 BER_KINDS = ['retag', 'len+1', 'len-1', 'len0', 'len-indef', 'len-huge',
              'drop-node', 'dup-node', 'swap-nodes', 'inject-eoc',
              'len-long-form', 'wrap-constructed', 'retag-indef',
@@ -191,6 +191,18 @@ def mutate(data, fault, other=b''):
             pos = rng.randrange(min(n, 12)) if rng.random() < 0.5 \
                 else rng.randrange(n)
             data[pos] = rng.choice(BYTE_SUBS)
+
+        return bytes(data)
+    elif kind == 'byte-small':
+        # Counts and length determinants of PER/OER are small numbers
+        # anywhere in the message: one becomes another small number, or
+        # moves by one.
+        if n:
+            pos = rng.randrange(n)
+            data[pos] = rng.choice([rng.randrange(0, 17),
+                                    (data[pos] + 1) & 0xff,
+                                    (data[pos] - 1) & 0xff,
+                                    data[pos] & 0xf0, data[pos] | 0x0f])
 
         return bytes(data)
     elif kind == 'insert':
